@@ -952,12 +952,30 @@ type retained struct {
 	str     string
 	bytes   []byte
 	isBytes bool
+	read    func() string
 	want    string
 }
 
 func (r *retained) current() string {
+	if r.read != nil {
+		return r.read()
+	}
 	if r.isBytes {
 		return string(r.bytes)
 	}
 	return r.str
+}
+
+// RetainFunc keeps something that can be read again later (an error value, say) and reads it again when the next thing is
+// retained under the same label: it must still read as it did (want) although the caller has moved on and reused its buffers.
+func (w *W) RetainFunc(c any, label string, read func() string, want string) {
+	if w.retained == nil {
+		w.retained = map[string]*retained{}
+	}
+	if p := w.retained[label]; p != nil {
+		if cur := p.current(); cur != p.want {
+			w.Fail(p.c, "earlier-result-changed-by-later-call", fmt.Sprintf("%s: read %q when it was returned, reads %q after the caller went on to its next call", label, p.want, cur))
+		}
+	}
+	w.retained[label] = &retained{c: c, read: read, want: want}
 }
